@@ -5,6 +5,7 @@ prefix (C13) are added to the same driver.
 import Ufw.Model.Slip
 import Ufw.Spec.Slip
 import Ufw.Model.Endpoints
+import Ufw.Model.Lenp
 import Driver.Loop
 
 open Ufw
@@ -218,11 +219,182 @@ def line (toks : List String) : String :=
 
 end EP
 
+/-! ### length prefix (C13) -/
+
+namespace LP
+open Ufw.Model.Endpoints Ufw.Model.Lenp
+open Ufw.Model.ByteBuffer (ByteBuffer)
+
+def kindOf : String → Option Nat
+  | "var" => some 0 | "octet" => some 1 | "le16" => some 2 | "le32" => some 3 | "be16" => some 4 | "be32" => some 5
+  | _ => none
+
+/-- independent reading of the property: the prefix of each kind -/
+def specPrefix (k : Nat) (n : Nat) : Option (List Octet) :=
+  let be (w : Nat) : List Octet := (List.range w).reverse.map fun i => BitVec.ofNat 8 (n / 256 ^ i)
+  let le (w : Nat) : List Octet := (List.range w).map fun i => BitVec.ofNat 8 (n / 256 ^ i)
+  let rec leb (fuel n : Nat) : List Octet :=
+    match fuel with
+    | 0 => []
+    | f + 1 => if n < 128 then [BitVec.ofNat 8 n] else BitVec.ofNat 8 (n % 128 + 128) :: leb f (n / 128)
+  match k with
+  | 0 => if n < 2 ^ 63 then some (leb 10 n) else none
+  | 1 => if n ≤ 255 then some (le 1) else none
+  | 2 => if n ≤ 65535 then some (le 2) else none
+  | 3 => if n ≤ 4294967295 then some (le 4) else none
+  | 4 => if n ≤ 65535 then some (be 2) else none
+  | 5 => if n ≤ 4294967295 then some (be 4) else none
+  | _ => none
+
+def parseBuf (s : String) : Option ByteBuffer :=
+  match s.splitOn ":" with
+  | [mem, used, off] =>
+    match parseHex mem, used.toNat?, off.toNat? with
+    | some m, some u, some o => some { mem := m, size := m.length, used := u, offset := o }
+    | _, _, _ => none
+  | _ => none
+
+def rS := EP.rStr true
+
+def exStr : Except Err Encoded → String
+  | .ok e => s!"ok:0 prefix={hexOf e.pre} plen={e.payloadLen}"
+  | .error e => s!"ERR:{e.name}"
+
+def bufStr (b : ByteBuffer) : String := s!"used={b.used} off={b.offset} mem={hexOf (b.mem.take b.used)}"
+
+def line (toks : List String) : String :=
+  match toks with
+  | ["lenp.memenc", k, n] =>
+    match kindOf k, n.toNat? with
+    | some k, some n =>
+      let spec := match specPrefix k n with
+        | some p => if n = 0 then "ERR:einval" else s!"ok:0 prefix={hexOf p} plen={n}"
+        | none => "ERR:einval"
+      s!"{exStr (flenp_memory_encode k n)} ## {spec}"
+    | _, _ => "bad-op"
+  | ["lenp.bufenc", k, buf] =>
+    match kindOf k, parseBuf buf with
+    | some k, some b => exStr (flenp_buffer_encode k b)
+    | _, _ => "bad-op"
+  | ["lenp.bufenc_n", k, buf, n] =>
+    match kindOf k, parseBuf buf, n.toNat? with
+    | some k, some b, some n =>
+      let (r, b') := flenp_buffer_encode_n k b n
+      s!"{exStr r} {bufStr b'}"
+    | _, _, _ => "bad-op"
+  | ["lenp.chunksuse", k, chunks, active] =>
+    match kindOf k, (chunks.splitOn "|").mapM parseBuf, active.toNat? with
+    | some k, some cs, some a =>
+      (match flenp_chunks_use k cs a with
+       | .ok p => s!"ok:0 prefix={hexOf p}"
+       | .error e => s!"ERR:{e.name}")
+    | _, _, _ => "bad-op"
+  | ["lenp.mem2sink", k, payload, kk, ksc] =>
+    match kindOf k, parseHex payload, EP.parseKind kk, EP.parseScript ksc with
+    | some k, some p, some kk, some ksc =>
+      let fuel := 2 * (ksc.length + p.length) + 40
+      let (r, s') := flenp_memory_to_sink fuel k { kind := kk, script := ksc } p
+      let spec := match r, specPrefix k p.length with
+        | .ok _, some pre => s!"ok:{pre.length + p.length} got={hexOf (pre ++ p)}"
+        | _, _ => s!"{rS r} got={hexOf s'.got}"
+      s!"{rS r} got={hexOf s'.got} ## {spec}"
+    | _, _, _, _ => "bad-op"
+  | ["lenp.big2sink", k, n, kk] =>
+    -- a payload length beyond the kind's maximum is refused before anything is emitted
+    match kindOf k, n.toNat?, EP.parseKind kk with
+    | some k, some n, some _ =>
+      (match encode_prefix k n with
+       | .error e => s!"ERR:{e.name} got=-"
+       | .ok _ => "bad-op")
+    | _, _, _ => "bad-op"
+  | ["lenp.buf2sink", k, buf, kk, ksc] =>
+    match kindOf k, parseBuf buf, EP.parseKind kk, EP.parseScript ksc with
+    | some k, some b, some kk, some ksc =>
+      let fuel := 2 * (ksc.length + b.mem.length) + 40
+      let (r, s') := flenp_buffer_to_sink fuel k { kind := kk, script := ksc } b
+      let pl := unread b
+      let spec := match r, specPrefix k pl.length with
+        | .ok _, some pre => s!"ok:{pre.length + pl.length} got={hexOf (pre ++ pl)}"
+        | _, _ => s!"{rS r} got={hexOf s'.got}"
+      s!"{rS r} got={hexOf s'.got} ## {spec}"
+    | _, _, _, _ => "bad-op"
+  | ["lenp.buf2sink_n", k, buf, n, kk, ksc] =>
+    match kindOf k, parseBuf buf, n.toNat?, EP.parseKind kk, EP.parseScript ksc with
+    | some k, some b, some n, some kk, some ksc =>
+      let fuel := 2 * (ksc.length + b.mem.length) + 40
+      let (r, s', b') := flenp_buffer_to_sink_n fuel k { kind := kk, script := ksc } b n
+      let pl := (unread b).take n
+      let spec := match r, specPrefix k n with
+        | .ok _, some pre => s!"ok:{pre.length + n} got={hexOf (pre ++ pl)} off={b.offset + n}"
+        | _, _ => s!"{rS r} got={hexOf s'.got} off={b'.offset}"
+      s!"{rS r} got={hexOf s'.got} off={b'.offset} ## {spec}"
+    | _, _, _, _, _ => "bad-op"
+  | ["lenp.chunks2sink", k, chunks, active, kk, ksc] =>
+    match kindOf k, (chunks.splitOn "|").mapM parseBuf, active.toNat?, EP.parseKind kk, EP.parseScript ksc with
+    | some k, some cs, some a, some kk, some ksc =>
+      let total := (cs.map (·.mem.length)).sum
+      let fuel := 2 * (ksc.length + total) + 40
+      let (r, s') := flenp_chunks_to_sink fuel k { kind := kk, script := ksc } cs a
+      let pl := (chunksRest cs a).flatten
+      let spec := match r, specPrefix k pl.length with
+        | .ok _, some pre => s!"ok:{pre.length + pl.length} got={hexOf (pre ++ pl)}"
+        | _, _ => s!"{rS r} got={hexOf s'.got}"
+      s!"{rS r} got={hexOf s'.got} ## {spec}"
+    | _, _, _, _, _ => "bad-op"
+  | ["lenp.mem_from", k, stream, sk, ssc, size] =>
+    match kindOf k, parseHex stream, EP.parseKind sk, EP.parseScript ssc, size.toNat? with
+    | some k, some st, some sk, some ssc, some size =>
+      let fuel := 2 * (ssc.length + st.length) + 40
+      let (r, d, s') := flenp_memory_from_source fuel k { kind := sk, stream := st, script := ssc } size
+      let dat := match r with | .ok m => hexOf (d.take m) | _ => "-"
+      s!"{rS r} data={dat} consumed={st.length - s'.stream.length}"
+    | _, _, _, _, _ => "bad-op"
+  | ["lenp.buf_from", k, stream, sk, ssc, buf] =>
+    match kindOf k, parseHex stream, EP.parseKind sk, EP.parseScript ssc, parseBuf buf with
+    | some k, some st, some sk, some ssc, some b =>
+      let fuel := 2 * (ssc.length + st.length) + 40
+      let (r, b', s') := flenp_buffer_from_source fuel k { kind := sk, stream := st, script := ssc } b
+      s!"{rS r} {bufStr b'} consumed={st.length - s'.stream.length}"
+    | _, _, _, _, _ => "bad-op"
+  | ["lenp.s2s", k, stream, sk, ssc, kk, ksc] =>
+    match kindOf k, parseHex stream, EP.parseKind sk, EP.parseScript ssc, EP.parseKind kk, EP.parseScript ksc with
+    | some k, some st, some sk, some ssc, some kk, some ksc =>
+      let fuel := 2 * (ssc.length + ksc.length + st.length) + 40
+      let (r, s', n') := flenp_decode_source_to_sink fuel k { kind := sk, stream := st, script := ssc } { kind := kk, script := ksc }
+      s!"{rS r} got={hexOf n'.got} consumed={st.length - s'.stream.length}"
+    | _, _, _, _, _, _ => "bad-op"
+  | ["lenp.frames", k, payloads, sk, ssc, cap] =>
+    -- encode each payload with the library, concatenate, decode again frame by frame from a fragmenting source
+    match kindOf k, (payloads.splitOn ",").mapM parseHex, EP.parseKind sk, EP.parseScript ssc, cap.toNat? with
+    | some k, some ps, some sk, some ssc, some cap =>
+      let wire := ps.flatMap fun p =>
+        (flenp_memory_to_sink (2 * p.length + 40) k { kind := .chunk, script := [] } p).2.got
+      let fuel := 2 * (ssc.length + wire.length) + 40
+      let rec go (n : Nat) (src : Src) (acc : List String) : List String :=
+        match n with
+        | 0 => acc
+        | n + 1 =>
+          let (r, d, s') := flenp_memory_from_source fuel k src cap
+          match r with
+          | .ok m => go n s' (acc ++ [hexOf (d.take m)])
+          | r => acc ++ [rS r]
+      let out := go ps.length { kind := sk, stream := wire, script := ssc } []
+      -- spec: with room for every payload and a source that only fragments, the frames come back in order
+      let plain := ssc.all fun st => match st with | .xfer _ => true | _ => false
+      let fits := ps.all fun p => p.length ≤ cap ∧ p.length ≥ 1
+      let specFrames := if plain && fits then ",".intercalate (ps.map hexOf) else ",".intercalate out
+      s!"wire={hexOf wire} frames={",".intercalate out} ## wire={hexOf (ps.flatMap fun p => (specPrefix k p.length).getD [] ++ p)} frames={specFrames}"
+    | _, _, _, _, _ => "bad-op"
+  | _ => "bad-op"
+
+end LP
+
 def stepLine (_ : Unit) (toks : List String) : Unit × String :=
   ((), match toks with
   | t :: rest =>
     if t.startsWith "slip." then slipLine (t :: rest)
     else if t.startsWith "ep." || t == "sts" then EP.line (t :: rest)
+    else if t.startsWith "lenp." then LP.line (t :: rest)
     else "bad-op"
   | _ => "bad-op")
 
